@@ -152,7 +152,7 @@ def run(ctx):
     # whole meta items
     f = ctx.fn("<syn::attr::Meta as %s>::from_meta" % FM)
     if f:
-        rs = [e for _, e in ctx.ret_exprs(f)]
+        rs = ctx.ret_values(f)
         ctx.ob("C13.G.meta-cloned", f.key, "Ok(value.clone())", len(rs) == 1 and re.match(r"^core::result::Result::Ok\{.*clone\(a1\)\}$", rs[0]) is not None, "%s" % rs)
     # the two expression helpers
     P = "darling_core::util::parse_expr::"
